@@ -217,7 +217,10 @@ def dispatch_tasks(P):
                                    returns=RT,
                                    requires=E("both_lists_non_empty", f"len({E_}) > 0 and len({G_}) > 0",
                                               "no_roi_on_the_first_estimate_or_the_first_ground_truth", f"{E_}[0].roi is None or {G_}[0].roi is None"),
-                                   ensures=E("paired_by_identity_not_by_geometry", named[fn])),
+                                   # traffic lights: either identity-based pairing is within the statement when uuid-first matching is requested (label+uuid, then uuid,
+                                   # pairs exactly the same-uuid couples; whether partnerless estimates are reported is not stated) - what must not happen is geometry
+                                   ensures=E("paired_by_identity_not_by_geometry",
+                                             named[fn] if fn.endswith("with_id") else f"({named[fn]}) or (uuid_matching_first and {named['_get_object_results_with_id']})")),
                  extra_contracts=cuts)
 
 
